@@ -55,6 +55,10 @@ class _CGMYCumulant(Cumulant):
         drift = self.drift
         if self.parameters.y == 1:
             return drift * t  # FIXME infinite cumulant for Y=1
+        if self.parameters.y == 0:
+            # zero representation (no compensation): the mean of the jumps adds to the drift
+            c, g, m = self.parameters.c, self.parameters.g, self.parameters.m
+            return (drift + c * (1 / m - 1 / g)) * t
         return drift * t
 
     def cumulant2(self, t: float) -> float:
@@ -280,7 +284,8 @@ class CGMYModel(LevyModel):
     def __init__(self, parameters: CGMYParameters):
         self.parameters = parameters
         cumulant = _CGMYCumulant(drift=0, parameters=parameters)
-        if parameters.y < 0.0:
+        # the representation the Lévy exponent below is written in: uncompensated for y = 0, centred otherwise
+        if parameters.y == 0.0:
             representation = LevyRepresentation.ZERO
         else:
             representation = LevyRepresentation.CENTER
